@@ -284,7 +284,7 @@ func (g *gen) step() {
 		{14, g.stepWrite}, {9, g.stepGenChallenge}, {12, g.stepChallengeResponse},
 		{9, g.stepUpdate}, {7, g.stepFinalize}, {6, g.stepCancel},
 		{8, g.stepRead}, {4, g.stepReadPool}, {4, g.stepWritePoolLock},
-		{5, g.stepNewAlloc}, {7, g.stepFree}, {4, g.stepHealth},
+		{5, g.stepNewAlloc}, {7, g.stepFree}, {4, g.stepHealth}, {4, g.stepFreshLife},
 		{4, g.stepBlobberSettings}, {3, g.stepCollect}, {3, g.stepStake}, {3, g.stepReprice},
 	}
 	if g.killOK {
@@ -531,6 +531,65 @@ func (g *gen) stepUpdate() {
 	g.do(from, "update_allocation_request", in, value, opInfo{variant: variant + "-" + who, target: a.id, tblob: tb})
 }
 
+// stepFreshLife: the short life of a brand-new allocation: created, written to one or both of its blobbers
+// (sometimes everything deleted again), and then - in the same second as the last write, or after a pause -
+// cancelled, or a blobber that holds data replaced. Closing / replacing at the very moment of the last write is
+// the case in which no pass payment is due to anybody.
+func (g *gen) stepFreshLife() {
+	if len(g.allocs) >= 5 {
+		g.stepWrite()
+		return
+	}
+	owner := g.clients[g.r.Intn(2)]
+	perm := g.r.Perm(len(g.blobbers))
+	bs := []*prov{g.blobbers[perm[0]], g.blobbers[perm[1]]}
+	for _, b := range bs {
+		g.do(b.key, "blobber_health_check", map[string]interface{}{}, 0, opInfo{variant: "one"})
+	}
+	n := len(g.allocs)
+	g.do(owner, "new_allocation_request", g.newAllocInput(owner, 1, 1, g.pickI(8, 64)*MB, bs), g.pickU(800000, 3000000), opInfo{variant: "new-fresh"})
+	if len(g.allocs) == n {
+		return
+	}
+	al := g.allocs[n]
+	wr := bs[:1+g.r.Intn(2)]
+	write := func(b *prov, size int64, variant string) {
+		in, _ := g.writeMarkerInput(g.prev, al, b, size, int64(g.w.Now), owner, "")
+		g.do(b.key, "commit_connection", in, 0, opInfo{variant: variant, target: al.id, tblob: b.key.ID})
+	}
+	for _, b := range wr {
+		write(b, g.pickI(64*KB, 1*MB, 4*MB), "upload-fresh")
+	}
+	if g.chance(30) {
+		for _, b := range wr {
+			if ba := findBA(findAlloc(g.prev, al.id), b.key.ID); ba != nil && ba.UsedSize > 0 {
+				write(b, -ba.UsedSize, "delete-fresh")
+			}
+		}
+	}
+	pause := "sametime"
+	if g.chance(40) {
+		g.nextBlock(g.pickI(1, 30, 600), 1)
+		pause = "later"
+	}
+	switch g.r.Intn(3) {
+	case 0:
+		g.do(owner, "cancel_allocation", map[string]interface{}{"allocation_id": al.id}, 0, opInfo{variant: "fresh-" + pause + "-owner", target: al.id})
+	case 1:
+		g.do(owner, "cancel_allocation", map[string]interface{}{"allocation_id": al.id}, 0, opInfo{variant: "fresh-" + pause + "-owner", target: al.id})
+		g.closeAgain(al)
+	default:
+		out := g.outsideBlobbers(al)
+		if len(out) == 0 {
+			return
+		}
+		nb := out[g.r.Intn(len(out))]
+		g.do(nb.key, "blobber_health_check", map[string]interface{}{}, 0, opInfo{variant: "one"})
+		g.do(owner, "update_allocation_request", map[string]interface{}{"id": al.id, "add_blobber_id": nb.key.ID, "remove_blobber_id": wr[0].key.ID},
+			g.pickU(0, 500000), opInfo{variant: "replace-fresh-" + pause + "-owner", target: al.id, tblob: wr[0].key.ID})
+	}
+}
+
 func (g *gen) stepFinalize() {
 	a := g.someAlloc()
 	from, who := g.caller(a, 50, 30)
@@ -742,9 +801,15 @@ func (g *gen) stepNewAlloc() {
 	if g.chance(15) && n < len(perm) {
 		bs = append(bs, g.blobbers[perm[n]]) // one spare
 		variant = "new-spare"
+	} else if g.chance(15) {
+		bs[1] = bs[0] // the same blobber named twice
+		variant = "new-dup"
 	}
 	size := g.pickI(8, 64, 128, 256, 600) * MB * int64(data)
 	value := g.pickU(100, 800000, 3000000, 6000000)
+	if variant == "new-dup" {
+		size, value = g.pickI(8, 64)*MB*int64(data), g.pickU(3000000, 6000000)
+	}
 	g.do(owner, "new_allocation_request", g.newAllocInput(owner, data, parity, size, bs), value, opInfo{variant: variant})
 }
 
